@@ -8,6 +8,21 @@ from ..exceptions import SecurityError
 from ..urls import uri_to_iri
 
 
+def _strip_port(host: str) -> str:
+    """Remove the port from a host. An IPv6 literal in brackets contains
+    colons itself, its port follows the closing bracket.
+    """
+    if host.startswith("["):
+        end = host.find("]")
+
+        if end != -1 and host[end + 1 : end + 2] in {"", ":"}:
+            return host[: end + 1]
+
+        return host
+
+    return host.partition(":")[0]
+
+
 def host_is_trusted(hostname: str | None, trusted_list: t.Iterable[str]) -> bool:
     """Check if a host matches a list of trusted names.
 
@@ -21,7 +36,7 @@ def host_is_trusted(hostname: str | None, trusted_list: t.Iterable[str]) -> bool
         return False
 
     try:
-        hostname = hostname.partition(":")[0].encode("idna").decode("ascii")
+        hostname = _strip_port(hostname).encode("idna").decode("ascii")
     except UnicodeError:
         return False
 
@@ -36,7 +51,7 @@ def host_is_trusted(hostname: str | None, trusted_list: t.Iterable[str]) -> bool
             suffix_match = False
 
         try:
-            ref = ref.partition(":")[0].encode("idna").decode("ascii")
+            ref = _strip_port(ref).encode("idna").decode("ascii")
         except UnicodeError:
             return False
 
